@@ -178,6 +178,29 @@ func newC03Env(c *CfgSpec) (*c03Env, error) {
 			e.origins = append(e.origins, v)
 		}
 	}
+	// cross probes: scheme/host of one configured pattern with the port of another, and vice versa
+	for _, p := range e.sem.Pats {
+		for _, q := range e.sem.Pats {
+			if p == q {
+				continue
+			}
+			for _, pt := range []int{q.Port, p.Port} {
+				if pt < 0 {
+					pt = 8081
+				}
+				for _, sch := range []string{p.Scheme, q.Scheme} {
+					h := p.Host
+					if p.Subs {
+						h = "a." + h
+					}
+					if v := (OriginSpec{Scheme: sch, Host: h, IP6: p.IP6, Port: pt}).String(); !seen[v] {
+						seen[v] = true
+						e.origins = append(e.origins, v)
+					}
+				}
+			}
+		}
+	}
 	return e, nil
 }
 
@@ -254,7 +277,7 @@ func reqString(q Req) string {
 func TestVerif_C03(t *testing.T) {
 	r := newRun(t, "C03")
 	r.Rule("C02 configuration product x debug off/on x hostile requests: every method token incl. lower-case `options`; Origin/ACRM/ACRH/ACRPN absent, zero-valued, empty, multi-valued, 1 MiB, upper-case, userinfo, path/query/fragment, bracketed non-IP, unmatched bracket, leading-zero/6-digit/0/65536/default ports, NUL and non-ASCII bytes, `null`, trailing/leading/double dots, plus byte-level mutations of allowed origins. " +
-		"Systematic part: every hostile Origin value x {GET, OPTIONS actual, preflight} per configuration; PRNG part: random combinations. evaluation = one exchange checked against all header invariants of the statement; " +
+		"Systematic part: every hostile Origin value x {GET, OPTIONS actual, preflight} per configuration; PRNG part: random combinations; origin-rich part: PRNG configurations with several schemes/ports per host, IP literals, subsuming and duplicate patterns, probed with every hostile value and with cross probes (scheme/host of one pattern with the port of another). evaluation = one exchange checked against all header invariants of the statement; " +
 		"non-trivial = exchange whose Origin is allowed or shares >= 8 leading bytes with an allowed origin (distinct by hash of configuration+request+debug)")
 	r.Assume("matchRaw (S1) decides which raw Origin values serialise an allowed origin; it mirrors one documented leniency (bracketed non-IP hosts)")
 
@@ -320,6 +343,51 @@ func TestVerif_C03(t *testing.T) {
 				if l.Batch%5000 == 7 && i < 2 {
 					l.Sample("random", c03Case{c, dbg, trimReq(q)})
 				}
+			}
+		}
+	})
+	// ---- origin-rich configurations (several schemes/ports per host, IP literals, subsuming patterns, duplicates)
+	nbRich := pick(r, 64, 1024)
+	perRich := pick(r, 12, 60)
+	if r.IsRace() {
+		nbRich = 16
+	}
+	r.Parallel(nbRich, func(l *Local) {
+		rng := l.Rng
+		for i := 0; i < perRich; i++ {
+			c := randRichValidCfg(rng)
+			if rng.IntN(2) == 0 {
+				// one host under several schemes and ports, in PRNG order
+				host := choose(rng, []string{"localhost", "127.0.0.1"})
+				for k := 2 + rng.IntN(3); k > 0; k-- {
+					sch := choose(rng, []string{"http", "connector", "ht", "httpss"})
+					if host == "localhost" && rng.IntN(2) == 0 {
+						sch = "https"
+					}
+					insertAt(rng, &c.Origins, oPat(PatSpec{Scheme: sch, Host: host, Port: choose(rng, []int{portNone, 3000, 8443, portAny})}, false, false))
+				}
+				dropStarO(&c.Origins)
+			}
+			e, err := newC03Env(c)
+			if err != nil {
+				continue
+			}
+			key := specKey(c)
+			for _, dbg := range []bool{false, true} {
+				for _, ov := range e.origins {
+					if len(ov) > 4096 {
+						continue
+					}
+					for _, q := range []Req{buildReq("GET", []string{ov}, nil, nil, nil, nil), buildReq("OPTIONS", []string{ov}, []string{"PUT"}, nil, []string{"true"}, nil)} {
+						c03RunCase(r, l, e, dbg, q)
+						if e.sem.originAllowedRaw(ov) || sharesPrefix(ov, e.allowed, 8) {
+							l.NontrivialKey(key, reqString(q), strconv.FormatBool(dbg))
+						}
+					}
+				}
+			}
+			if l.Batch == 1 && i == 0 {
+				l.Sample("rich-config", c03Case{c, false, buildReq("GET", []string{e.origins[len(e.origins)-1]}, nil, nil, nil, nil)})
 			}
 		}
 	})
